@@ -12,7 +12,9 @@ or loaded before.  The checks therefore never present the code under test with a
   source is untouched) so that the FIRST call on an instance may be preceded by a
   short history of that very instance: no-grad calls on different data of the same shape, a call
   with autograd + backward, a detour of the buffers through other values (`load_state_dict`), a
-  loss-less float32 round trip, and a float32 call of a deep copy.  Which steps run is a
+  loss-less float32 round trip, a float32 call of a deep copy, a call on an input of another size and one
+  with twice the channels; and it may be FOLLOWED by calls on other data of the same shape (by the same
+  instance and by a twin) before the caller gets to look at what the first call returned.  Which steps run is a
   deterministic function of the call's content and VERIF_SEED, so a replay reproduces it.
 
 None of these steps may change the result of the call under test; if one does, the correspondence or
@@ -107,7 +109,12 @@ def _recipe(name, args):
     v = int.from_bytes(h.digest()[:8], 'big')
     if (v & 0xFFFF) / 65536.0 >= STATE['p']:
         return 0
-    return ((v >> 16) & 0x3F) or 1
+    return ((v >> 16) & 0x3FF) or 1
+
+
+def _single(args):
+    import torch
+    return len(args) == 1 and isinstance(args[0], torch.Tensor) and args[0].dim() >= 3 and args[0].numel() > 0 and args[0].is_floating_point()
 
 
 def _f32_exact(t):
@@ -167,6 +174,26 @@ def _history(self, call, args, bits):
         with torch.no_grad():
             call(self, _map(args, lambda t: _alt(t, 3)))
         STATS['step_second_nograd_call'] += 1
+    if bits & 64 and _single(args):
+        # an input of another size first (parity of every spatial axis flipped): plans / buffers sized for it must not be reused
+        try:
+            x = _alt(args[0], 2)
+            for d in range(2, x.dim()):
+                x = torch.cat([x, x.narrow(d, x.shape[d] - 1, 1)], dim=d)
+            with torch.no_grad():
+                call(self, (x,))
+            STATS['step_other_size_first'] += 1
+        except Exception:
+            STATS['step_other_size_first_raised'] += 1
+    if bits & 128 and _single(args):
+        # twice as many channels first: banks / caches built for that width must not leak into the narrower call
+        try:
+            x = _alt(args[0], 1)
+            with torch.no_grad():
+                call(self, (torch.cat([x, x * 3.0 - 1.0], dim=1),))
+            STATS['step_wider_first'] += 1
+        except Exception:
+            STATS['step_wider_first_raised'] += 1
 
 
 def _season_class(cls):
@@ -175,6 +202,7 @@ def _season_class(cls):
     orig = cls.__call__
 
     def __call__(self, *args, **kw):
+        bits = 0
         if STATE['on'] and STATE['depth'] == 0 and not kw and not self.__dict__.get('_vp_called'):
             self.__dict__['_vp_called'] = True
             bits = _recipe(cls.__name__, args)
@@ -184,7 +212,25 @@ def _season_class(cls):
                     _history(self, lambda m, a: orig(m, *a), args, bits)
                 finally:
                     STATE['depth'] -= 1
-        return orig(self, *args, **kw)
+        out = orig(self, *args, **kw)
+        if bits & 0x300:
+            # AFTER the call under test: the same instance (and a fresh twin) transform other data of the same
+            # shape.  What the first call returned must not change (no shared output workspace).
+            import torch
+            STATE['depth'] += 1
+            try:
+                with torch.no_grad():
+                    if bits & 0x100:
+                        orig(self, *_map(args, lambda t: _alt(t, 5)))
+                        STATS['post_same_instance_call'] += 1
+                    if bits & 0x200:
+                        orig(copy.deepcopy(self), *_map(args, lambda t: _alt(t, 7)))
+                        STATS['post_twin_call'] += 1
+            except Exception:
+                STATS['post_call_raised'] += 1
+            finally:
+                STATE['depth'] -= 1
+        return out
     cls.__call__ = __call__
     cls._vp_seasoned = True
 
